@@ -135,7 +135,7 @@ def _butterworth(ck: Checker, prog: Program):
 
 def _wiring_table(ck: Checker, prog: Program, f, fq: str, lp: ast.For, rec: str):
     """One pass of the per-record loop as a decision table over the settings: which steps run, on what, with which values."""
-    from ..pathtable import PathTable, consistent, pick
+    from ..pathtable import PathTable
     R = lambda n: sp.Symbol(n, real=True)   # noqa: E731
     F = sp.Function
     SET, REC, NONE = R("settings"), R("<record>"), sp.Symbol("None")
@@ -149,17 +149,19 @@ def _wiring_table(ck: Checker, prog: Program, f, fq: str, lp: ast.For, rec: str)
     if not leaves:
         raise AnalysisError(f"{fq}: no complete pass of the per-record loop")
 
+    from ..pathtable import outcomes, specialise
     bad = {"orientation guard": [], "receivers": [], "settings wiring": [], "detrend": [], "detrend type": []}
-    GIVEN = sp.Symbol("'<given>'")
-    worlds = [{ORI: o, WL: w, DET: d} for o in (NONE, GIVEN) for w in (NONE, GIVEN) for d in (NONE, sp.Symbol("'none'"), GIVEN)]
+    G_ORI, G_WL, G_DET, G_CORN = (sp.Symbol(f"'<given {n_}>'") for n_ in ("orientation", "window length", "detrend type", "corners"))
+    worlds = [{ORI: o, WL: w, DET: d, CORN: G_CORN} for o in (NONE, G_ORI) for w in (NONE, G_WL) for d in (NONE, sp.Symbol("'none'"), G_DET)]
     covered = 0
     for world in worlds:
-        live = [l for l in leaves if consistent(l, world)]
-        if not live:
+        rows = [r for r in outcomes(leaves, world) if r["exit"] == "fall"]
+        if not rows:
             bad["settings wiring"].append(f"no pass of the loop for settings {world}")
-        for l in live:
+        for r in rows:
+            l = r["leaf"]
             covered += 1
-            calls = [e for e in l.events if e[0] == "call"]
+            calls = [e for e in r["events"] if e[0] == "call"]
             named = lambda nm: [e[2] for e in calls if getattr(getattr(e[2], "func", None), "__name__", "") == nm]   # noqa: E731
             # orientation
             o = named("orient_sensor_to")
@@ -168,45 +170,45 @@ def _wiring_table(ck: Checker, prog: Program, f, fq: str, lp: ast.For, rec: str)
             for x in o:
                 if x.args[0] != REC:
                     bad["receivers"].append(f"orient_sensor_to acts on {x.args[0]}")
-                if len(x.args) < 2 or x.args[1] != ORI:
+                if len(x.args) < 2 or x.args[1] != world[ORI]:
                     bad["orientation guard"].append(f"orientation target is {x.args[1:]}")
             # filter
             fl = named("butterworth_filter")
             if len(fl) != 1 or fl[0].args[0] != REC:
                 bad["receivers"].append(f"the filter acts on {[str(x.args[0]) for x in fl]}")
-            elif len(fl[0].args) < 2 or fl[0].args[1] != CORN:
+            elif len(fl[0].args) < 2 or fl[0].args[1] != G_CORN:
                 bad["settings wiring"].append(f"filter corners are {fl[0].args[1:]}")
             # windows handed on
             ext = named("extend")
             if len(ext) != 1:
                 raise AnalysisError(f"{fq}: expected one extend() of the output list per record")
-            V = pick(ext[0].args[1], world)
-            if V is None:
-                raise AnalysisError(f"{fq}: the windows handed on ({ext[0].args[1]}) are not decided by the settings")
-            if world[WL] != NONE and V != F("split")(REC, WL):
+            V = ext[0].args[1]
+            if isinstance(V, sp.Piecewise):
+                raise AnalysisError(f"{fq}: the windows handed on ({V}) are not decided by the settings")
+            if world[WL] != NONE and V != F("split")(REC, G_WL):
                 bad["settings wiring" if getattr(getattr(V, "func", None), "__name__", "") == "split" and V.args[0] == REC else "receivers"].append(f"with a window length the windows are {V}")
             elif world[WL] == NONE and V != sp.Tuple(REC):
                 bad["receivers"].append(f"without a window length the windows are {V}")
             # detrend: each window of that same list, with the configured type, exactly when a type is configured
-            wanted = world[DET] == GIVEN
-            dl = [e for e in l.events if e[0] == "loop" and isinstance(e[3], ast.For) and calls_in(e[3], "detrend")]
+            wanted = world[DET] == G_DET
+            dl = [e for e in r["events"] if e[0] == "loop" and isinstance(e[3], ast.For) and calls_in(e[3], "detrend")]
             if bool(dl) != wanted:
                 bad["detrend"].append(f"windows are {'detrended' if dl else 'not detrended'} when the configured type is {world[DET]}")
             for e in dl:
                 st = e[3]
                 env2 = dict(l.snaps[id(st)][0])
                 Tn = PathTable(prog, f.module, structured=True, unroll=True)._T(env2)
-                seq = pick(Tn.tr(st.iter), world)
+                seq = specialise(Tn.tr(st.iter), world)
                 if seq != V:
                     bad["receivers"].append(f"detrend runs over {seq}, not over the windows handed on")
                 if not isinstance(st.target, ast.Name):
                     raise AnalysisError(f"{fq}: detrend loop target")
                 env2[st.target.id] = R("<window>")
                 sub = PathTable(prog, f.module, env=env2, structured=True, unroll=True).leaves(st.body)
-                dcalls = [x[2] for sl in sub for x in sl.events if x[0] == "call" and getattr(getattr(x[2], "func", None), "__name__", "") == "detrend"]
+                dcalls = [specialise(x[2], world) for sl in sub for x in sl.events if x[0] == "call" and getattr(getattr(x[2], "func", None), "__name__", "") == "detrend"]
                 if len(sub) != 1 or len(dcalls) != 1 or dcalls[0].args[0] != R("<window>"):
                     bad["receivers"].append("detrend is not applied once to each window")
-                elif len(dcalls[0].args) < 2 or dcalls[0].args[1] != DET:
+                elif len(dcalls[0].args) < 2 or dcalls[0].args[1] != G_DET:
                     bad["detrend type"].append(f"detrend type is {dcalls[0].args[1:]}")
     names = {"orientation guard": "orientation applied exactly when a target is configured (0 included), with that target",
              "receivers": f"orient/filter/split act on the whole record; detrend on each window of the split result",
